@@ -262,26 +262,10 @@ func (v *Value) GetMember(member Value) (*Cell, error) {
 		}
 
 		if index >= len(arr) {
-			// TODO sparse arrays
-			// don't fill up to enormous numbers, just bail
-			if index > 1024*1024 {
-				return nil, fmt.Errorf("index too large to auto-fill array")
-			}
-
-			// fill the array with empty cells up to the index
-			var lastCell *Cell
-			for i := len(arr); i <= index; i++ {
-				lastCell = NewCell(NewValue(nil))
-				arr = append(arr, lastCell)
-			}
-			v.Array = arr
-
-			// make the last cell a spec object
-			lastCell.Value.ParentObj = v
+			// reading past the end must not change the array, so return a
+			// detached spec object. SetMember fills the array if it's assigned to
 			fIndex := float64(index)
-			lastCell.Value.Num = &fIndex
-
-			return lastCell, nil
+			return NewCell(Value{Tag: ValueNil, ParentObj: v, Num: &fIndex}), nil
 		}
 		return arr[index], nil
 	case ValueObj:
@@ -321,10 +305,29 @@ func (v *Value) SetMember(member Value, cell *Cell) (*Cell, error) {
 			return nil, fmt.Errorf("array indices must be numbers")
 		}
 
-		item, err := v.GetMember(member)
-		if err != nil {
-			return nil, err
+		index := int(*member.Num)
+		if index < 0 {
+			index = len(v.Array) + index
+			if index < 0 {
+				// walked backwards off the front of the array
+				return nil, fmt.Errorf("index out of range")
+			}
 		}
+
+		if index >= len(v.Array) {
+			// TODO sparse arrays
+			// don't fill up to enormous numbers, just bail
+			if index > 1024*1024 {
+				return nil, fmt.Errorf("index too large to auto-fill array")
+			}
+
+			// fill the array with empty cells up to the index
+			for i := len(v.Array); i <= index; i++ {
+				v.Array = append(v.Array, NewCell(NewValue(nil)))
+			}
+		}
+
+		item := v.Array[index]
 		item.Value = cell.Value
 		return item, nil
 	case ValueObj:
